@@ -80,11 +80,14 @@ def check(ctx):
         s, t, v, k, m = gen_point(g, pd)
         if pd:
             # continuation region (m < 0, so s < 0) most of the time; barrier already hit otherwise
-            if g.chance(0.8):
+            r_ = g.r.random()
+            if r_ < 0.6:
                 s = -abs(s) - 0.02
                 m = min(-0.01, s + g.r.uniform(0, 0.3)) if g.chance(0.7) else s
+            elif r_ < 0.8:
+                s, m = -abs(s) - 0.02, 0.0            # barrier touched exactly, spot back below
             else:
-                m = abs(m) + 0.0
+                m = abs(m) + 0.0                      # barrier exceeded (spot below or above)
         call = g.chance(0.5) if fam != "american_binary" else True
         st, val, _ = call_impl(call_bs, torch, fn, s, t, v, k, m, call)
         case = {"fn": fn, "s": s, "t": t, "v": v, "k": k, "m": m, "call": call}
